@@ -6,7 +6,8 @@ from numlib import model_view, describe  # noqa: F401  (hooks used by the runner
 
 PID = "C08"
 PROFILES = ["debug", "release"]
-ALLOWED_AXIOMS = []
+ALLOWED_AXIOMS = ["ClassicalDedekindReals.sig_not_dec", "ClassicalDedekindReals.sig_forall_dec",
+                  "FunctionalExtensionality.functional_extensionality_dep", "Classical_Prop.classic"]
 KERNEL_SAMPLE = {"quick": 300, "thorough": 2000}
 CORRESPONDENCE = ("marwood/src/number.rs (Add Sub Mul Div quotient Rem modulo abs floor ceil truncate round "
                   "numerator denominator pow) + vm/builtin/number.rs + num-rational/num-integer on Ratio<i32> "
@@ -35,9 +36,13 @@ MANIFEST = dict(
          "Number API and through Vm::eval, debug and release builds, 3-way (impl / extracted model / vm_compute).",
     design="DESIGN.md section 5 C08",
     note="Trusted: Coq kernel, the hand-written model (tied by differential correspondence), num-bigint as Z, rustc integer "
-         "semantics per profile, extraction+OCaml driver (cross-checked in-kernel), Rust harness, Python oracle. The "
-         "exact-arithmetic theorems are closed under the global context (no axioms). OPEN: op_error_bound (float error "
-         "bound) is stated as a Definition and checked by the oracle only.",
+         "semantics per profile, extraction+OCaml driver (cross-checked in-kernel), Rust harness, Python oracle. Axioms: the "
+         "Ratio32-level theorems (gcd, reduce, checked add/sub/mul) are closed under the global context; every theorem "
+         "whose statement mentions a number.rs function (num_add ...) reports the four standard-library axioms behind "
+         "Coq's reals (ClassicalDedekindReals.sig_not_dec, sig_forall_dec, functional_extensionality_dep, "
+         "Classical_Prop.classic) because the float arms of the same functions are Flocq operations whose validity "
+         "proofs are built over R; no other axiom. OPEN (stated as Definitions, oracle-checked only): div_exact, "
+         "inexact_only_if, modulo/abs/floor/ceiling/truncate/numerator/denominator/expt exactness, error bound.",
     technique="Rocq/Coq proof (Z/Q arithmetic, gcd reasoning) + model/implementation correspondence check")
 
 API_ARITH = [0, 1, 2, 3]          # + - * /
